@@ -42,6 +42,10 @@
   Continued in Props.C18Api (separate module, cf. Props.C19Api): the same from the invariant `Inv` and
   from a fresh conversation, where C13 discharges the no-panic hypothesis
   (`apiCall_security_events_inv`, `api_sequence_events_balance_fresh`).
+  Repaired code (c2434f4): `receive_disconnect_despite_rotation_failure` / `tail_disconnect` (Proofs.ConvData): once a
+  data message is authentic and accepted, its disconnected TLV (no SMP TLV before it) ends the conversation
+  (`finished`) even when the key rotation it asks for fails for lack of randomness and the call returns that error;
+  assumed: `rotatesOur`, `randRead 40` returns `none`; form: `processDataMessageTail`.
 -/
 
 import Proofs.ConvLife
@@ -254,5 +258,14 @@ theorem recvSig_completes : type_of% @Otr.recvSig_completes := @Otr.recvSig_comp
 
 /-- a Reveal-Signature message in `awaitingRevealSig`, likewise -/
 theorem recvRevealSig_completes : type_of% @Otr.recvRevealSig_completes := @Otr.recvRevealSig_completes
+
+/-- repaired code (c2434f4): an authentic, accepted data message whose key rotation cannot draw randomness still has
+    its TLVs acted upon - with a disconnected TLV (no SMP TLV before it) the call reports an error AND the
+    conversation is `finished`.  Form proved: `processDataMessageTail`, the part of
+    `processDataMessageWithRawErrors` that runs once the MAC is verified and the counter accepted. -/
+theorem receive_disconnect_despite_rotation_failure : type_of% @Otr.ConvData.receive_disconnect_despite_rotation_failure := @Otr.ConvData.receive_disconnect_despite_rotation_failure
+
+/-- the same whatever the rotation does: every outcome of the accepted message with a disconnected TLV is `finished` -/
+theorem tail_disconnect : type_of% @Otr.ConvData.tail_disconnect := @Otr.ConvData.tail_disconnect
 
 end Otr.C18
